@@ -9,6 +9,14 @@
 //! characters are valid scalar values; raw events are non-empty and equal the input bytes of
 //! their span; numeric fields equal the decimal value of their digits, or are clamped, or the
 //! sequence is raw — never the true value modulo 2^k; spans tile the consumed input.
+//!
+//! API schedule (second pass over the same reads, `Case::Stream::api`): every read is handed to
+//! the decoder through a generated choice of `decode` (one item per call), `decode_into` appending
+//! to ONE long-lived output vector that is reused across all reads, or `decode_into` with a
+//! vector that is fresh for that read.  Oracles: the count returned by every `decode_into` call
+//! equals the growth of the vector during that call; a further call on the exhausted read (and on
+//! an empty read after the last one) reports 0 / `None` and appends nothing; the items collected
+//! this way equal those of the plain `decode` loop.
 
 use crate::engine::*;
 use crate::hostile;
@@ -23,7 +31,15 @@ pub struct C02;
 
 #[derive(Clone, Debug, Serialize, Deserialize)]
 pub enum Case {
-    Stream { input: Vec<u8>, cuts: Vec<u16> },
+    Stream {
+        input: Vec<u8>,
+        cuts: Vec<u16>,
+        /// API schedule of the second pass: selector of read `i` is `api[i % len]`
+        /// (`% 3`: 0 = `decode` loop, 1 = `decode_into` on the long-lived vector, 2 =
+        /// `decode_into` on a vector fresh for that read); empty = no second pass
+        #[serde(default)]
+        api: Vec<u8>,
+    },
     /// well-formed SGR colour whose components may exceed 255
     SgrOverflow { role: Role, sep: u8, comps: [u64; 3], cs: bool, tail_bold: bool },
 }
@@ -94,6 +110,190 @@ where
         }
     }
     Ok(out)
+}
+
+/// what the API-schedule pass exercised (for the labels)
+#[derive(Default)]
+struct ApiStats {
+    /// `decode_into` calls (those after the last read not counted)
+    into_calls: usize,
+    /// `decode_into` calls whose output vector already held items
+    into_nonempty: usize,
+    /// reads decoded item by item with `decode`
+    decode_reads: usize,
+    /// reads decoded into a vector fresh for that read
+    fresh_reads: usize,
+}
+
+/// Second pass: the same reads, each handed over through the API the schedule selects, all
+/// items collected in one long-lived vector.  `errors_are_reports`: the decoder reports invalid
+/// input as `Err` and decoding goes on with the rest of the read (Utf8Decoder); otherwise an
+/// error on in-memory input is a failure (as in `run_public`).
+fn run_api_schedule<D: Decoder>(
+    dec: &mut D,
+    chunks: &[&[u8]],
+    api: &[u8],
+    what: &str,
+    errors_are_reports: bool,
+    expect: &[D::Item],
+) -> Result<ApiStats, Fail>
+where
+    D::Error: std::fmt::Debug,
+    D::Item: PartialEq + std::fmt::Debug,
+{
+    let mut stats = ApiStats::default();
+    // the long-lived output vector: never cleared, never replaced
+    let mut out: Vec<D::Item> = Vec::new();
+    let total: usize = chunks.iter().map(|c| c.len()).sum();
+    // every call consumes input, emits an item or ends the read (see `run_public`)
+    let limit = 8 * total + 8 * chunks.len() + 32;
+    let mut steps = 0usize;
+    // the count clause is reported after the exhaustion clause (which is the statement's own)
+    let mut count_fail: Option<Fail> = None;
+    let io_error = |e: &D::Error| {
+        Fail::new(format!("{what}/io-error"), format!("decoder returned an error on in-memory input: {e:?}"))
+    };
+    // one decode_into call on `cur` appending to `vec`; Ok(Some(n)) = returned count
+    // (checked against the growth), Ok(None) = reported an error
+    let into_call = |dec: &mut D,
+                         cur: &mut std::io::Cursor<&[u8]>,
+                         vec: &mut Vec<D::Item>,
+                         stats: &mut ApiStats,
+                         count_fail: &mut Option<Fail>,
+                         read: usize|
+     -> Result<Option<usize>, Fail> {
+        let before = vec.len();
+        stats.into_calls += 1;
+        if before > 0 {
+            stats.into_nonempty += 1;
+        }
+        match dec.decode_into(&mut *cur, vec) {
+            Ok(n) => {
+                ensure!(
+                    vec.len() >= before,
+                    format!("{what}/decode-into-removed-items"),
+                    "read {read}: the output vector shrank from {before} to {} items",
+                    vec.len()
+                );
+                let grown = vec.len() - before;
+                if n != grown && count_fail.is_none() {
+                    *count_fail = Some(Fail::new(
+                        format!("{what}/decode-into-count-differs-from-appended"),
+                        format!(
+                            "read {read}: decode_into returned {n} but appended {grown} item(s) to a vector that held {before}"
+                        ),
+                    ));
+                }
+                Ok(Some(n))
+            }
+            Err(e) if !errors_are_reports => Err(io_error(&e)),
+            Err(_) => {
+                ensure!(
+                    vec.len() >= before,
+                    format!("{what}/decode-into-removed-items"),
+                    "read {read}: the output vector shrank from {before} to {} items",
+                    vec.len()
+                );
+                Ok(None)
+            }
+        }
+    };
+    for (read, chunk) in chunks.iter().enumerate() {
+        let sel = api[read % api.len()] % 3;
+        let mut cur = std::io::Cursor::new(*chunk);
+        let mut fresh: Vec<D::Item> = Vec::new();
+        if sel == 0 {
+            stats.decode_reads += 1;
+        } else if sel == 2 {
+            stats.fresh_reads += 1;
+        }
+        // ---- the read itself
+        loop {
+            steps += 1;
+            ensure!(
+                steps <= limit,
+                format!("{what}/non-termination"),
+                "API-schedule pass did not finish after {steps} calls on {total} bytes of input"
+            );
+            if sel == 0 {
+                match dec.decode(&mut cur) {
+                    Ok(Some(item)) => out.push(item),
+                    Ok(None) => break,
+                    Err(e) if !errors_are_reports => return Err(io_error(&e)),
+                    Err(_) => {}
+                }
+            } else {
+                let vec = if sel == 1 { &mut out } else { &mut fresh };
+                if into_call(dec, &mut cur, vec, &mut stats, &mut count_fail, read)?.is_some() {
+                    break;
+                }
+            }
+        }
+        // "all available items": the read is used up when the decoder says it has no more
+        ensure!(
+            cur.position() as usize == chunk.len(),
+            format!("{what}/none-before-exhaustion"),
+            "read {read}: the decoder reported the end of the items with {} unread bytes",
+            chunk.len() - cur.position() as usize
+        );
+        // ---- the read is exhausted now: nothing more is available, through either call
+        if sel == 0 {
+            match dec.decode(&mut cur) {
+                Ok(None) => {}
+                Ok(Some(item)) => {
+                    return Err(Fail::new(
+                        format!("{what}/event-from-empty-read"),
+                        format!("read {read}: decode on the exhausted read produced {item:?}"),
+                    ));
+                }
+                Err(e) => return Err(io_error(&e)),
+            }
+        } else {
+            let vec = if sel == 1 { &mut out } else { &mut fresh };
+            let before = vec.len();
+            stats.into_calls += 1;
+            if before > 0 {
+                stats.into_nonempty += 1;
+            }
+            match dec.decode_into(&mut cur, vec) {
+                Ok(n) => ensure!(
+                    n == 0 && vec.len() == before,
+                    format!("{what}/decode-into-reports-more-on-exhausted-input"),
+                    "read {read}: decode_into on the exhausted read returned {n}, the vector went from {before} to {} item(s); nothing more is available, it must return 0 and append nothing",
+                    vec.len()
+                ),
+                Err(e) => return Err(io_error(&e)),
+            }
+        }
+        out.append(&mut fresh);
+    }
+    // ---- after the last read: empty reads into the long-lived vector
+    for _ in 0..2 {
+        let empty: &[u8] = &[];
+        let before = out.len();
+        match dec.decode_into(std::io::Cursor::new(empty), &mut out) {
+            Ok(n) => ensure!(
+                n == 0 && out.len() == before,
+                format!("{what}/decode-into-reports-more-on-exhausted-input"),
+                "decode_into on an empty read after the last one returned {n}, the vector went from {before} to {} item(s); it must return 0 and append nothing",
+                out.len()
+            ),
+            Err(e) => return Err(io_error(&e)),
+        }
+    }
+    if let Some(f) = count_fail {
+        return Err(f);
+    }
+    // decode_into "decodes all available items": same items as the item-by-item loop
+    ensure!(
+        out.as_slice() == expect,
+        format!("{what}/items-depend-on-api"),
+        "decode loop produced {:?}, the API schedule {:?} produced {:?}",
+        expect,
+        api,
+        out
+    );
+    Ok(stats)
 }
 
 /// decimal digit runs of a span, as saturating u128
@@ -333,7 +533,7 @@ fn check_tokens<T: std::fmt::Debug>(
     Ok(())
 }
 
-fn check_stream(input: &[u8], cuts: &[u16]) -> Outcome {
+fn check_stream(input: &[u8], cuts: &[u16], api: &[u8]) -> Outcome {
     let cuts = hostile::cuts_from(cuts, input.len());
     let chunks = hostile::split(input, &cuts);
 
@@ -434,7 +634,7 @@ fn check_stream(input: &[u8], cuts: &[u16]) -> Outcome {
 
     // ---- standalone UTF-8 decoder
     let mut u8dec = Utf8Decoder::new();
-    let mut nchars = 0usize;
+    let mut u8chars: Vec<char> = Vec::new();
     for chunk in &chunks {
         let mut cur = std::io::Cursor::new(*chunk);
         let mut steps = 0;
@@ -443,7 +643,7 @@ fn check_stream(input: &[u8], cuts: &[u16]) -> Outcome {
             ensure!(steps <= 2 * chunk.len() + 8, "utf8/non-termination", "Utf8Decoder loop");
             match u8dec.decode(&mut cur) {
                 Ok(Some(c)) => {
-                    nchars += 1;
+                    u8chars.push(c);
                     ensure!(
                         scalar_ok(c),
                         "utf8/invalid-scalar-value",
@@ -476,6 +676,26 @@ fn check_stream(input: &[u8], cuts: &[u16]) -> Outcome {
         }
         ensure!(got == s, "utf8/valid-input-differs", "Utf8Decoder({:?}) = {:?}", s, got);
     }
+    let nchars = u8chars.len();
+
+    // ---- API schedule: decode / decode_into on a long-lived vector / decode_into on a fresh one
+    let mut into_calls = 0usize;
+    let mut into_nonempty = 0usize;
+    let mut mixed = false;
+    let mut fresh = false;
+    if !api.is_empty() {
+        let runs = [
+            run_api_schedule(&mut TTYEventDecoder::new(), &chunks, api, "event", false, &events)?,
+            run_api_schedule(&mut TTYCommandDecoder::new(), &chunks, api, "command", false, &cmds)?,
+            run_api_schedule(&mut Utf8Decoder::new(), &chunks, api, "utf8", true, &u8chars)?,
+        ];
+        for st in &runs {
+            into_calls += st.into_calls;
+            into_nonempty += st.into_nonempty;
+            mixed |= st.decode_reads > 0 && st.decode_reads < chunks.len();
+            fresh |= st.fresh_reads > 0;
+        }
+    }
 
     let has_esc = input.contains(&0x1b);
     let has_multi = input.iter().any(|b| *b >= 0xc0);
@@ -487,6 +707,11 @@ fn check_stream(input: &[u8], cuts: &[u16]) -> Outcome {
         .label_if(raws < events.len(), "produced-recognised")
         .label_if(chunks.iter().any(|c| c.is_empty()), "has-empty-read")
         .label_if(nchars > 0, "utf8-chars")
+        .label_if(!api.is_empty(), "api-schedule")
+        .label_if(into_calls > 0, "decode-into")
+        .label_if(into_nonempty > 0, "decode-into-on-nonempty-vector")
+        .label_if(fresh, "decode-into-fresh-vector-per-read")
+        .label_if(mixed, "mixed-decode-and-decode-into")
         .label_if(tok.pending() > 0, "ends-pending")
         .label_if(input.len() > 64, "len>64"))
 }
@@ -565,12 +790,13 @@ impl Property for C02 {
             return None;
         }
         let cuts = vec![(data[0] as u16) << 8 | 0x55, (data[1] as u16) << 8 | 0xaa];
-        Some(Case::Stream { input: data[2..].to_vec(), cuts })
+        // fixed API schedule for the byte layout: every read appends to the long-lived vector
+        Some(Case::Stream { input: data[2..].to_vec(), cuts, api: vec![1] })
     }
 
     fn case_to_bytes(&self, case: &Case) -> Option<Vec<u8>> {
         match case {
-            Case::Stream { input, cuts } => {
+            Case::Stream { input, cuts, .. } => {
                 let mut out = vec![cuts.first().map(|c| (c >> 8) as u8).unwrap_or(0), cuts.get(1).map(|c| (c >> 8) as u8).unwrap_or(0)];
                 out.extend_from_slice(input);
                 Some(out)
@@ -603,8 +829,18 @@ impl Property for C02 {
             1 => any::<u64>(),
         ];
         prop_oneof![
-            20 => (hostile::input(max_raw), proptest::collection::vec(any::<u16>(), 0..6))
-                .prop_map(|(input, cuts)| Case::Stream { input, cuts }),
+            20 => (
+                hostile::input(max_raw),
+                proptest::collection::vec(any::<u16>(), 0..6),
+                // API schedule of the second pass: none / every read into the long-lived
+                // vector / a generated mix of decode, long-lived and per-read vectors
+                prop_oneof![
+                    3 => Just(Vec::new()),
+                    2 => Just(vec![1u8]),
+                    3 => proptest::collection::vec(0u8..3, 1..=6),
+                ]
+            )
+                .prop_map(|(input, cuts, api)| Case::Stream { input, cuts, api }),
             1 => (
                 prop_oneof![Just(Role::Fg), Just(Role::Bg), Just(Role::Ul)],
                 prop_oneof![Just(b':'), Just(b';')],
@@ -619,7 +855,7 @@ impl Property for C02 {
 
     fn check(&self, case: &Case) -> Outcome {
         match case {
-            Case::Stream { input, cuts } => check_stream(input, cuts),
+            Case::Stream { input, cuts, api } => check_stream(input, cuts, api),
             Case::SgrOverflow { role, sep, comps, cs, tail_bold } => {
                 check_sgr_overflow(*role, *sep, *comps, *cs, *tail_bold)
             }
@@ -631,7 +867,7 @@ impl Property for C02 {
     }
 
     fn rule(&self) -> String {
-        "inputs: raw bytes (<=64, thorough <=1024), ESC/digit/;-heavy noise, concatenations of 1-6 hostile skeletons of every recognised sequence family with parameters from {empty, 0, 1, 00, 2^k+-1, 2^32, 2^64+-1, 20-40 digit runs}, empty parameter lists, truncated (unterminated) sequences, every UTF-8 lead byte with 0-3 continuation bytes incl. overlong/surrogate/>U+10FFFF forms, mutated (bit flip, insert, delete, duplicate, truncate) protocol-printer output and repository test strings, well-formed concatenations; each cut into 1-6 reads (incl. empty reads); plus well-formed SGR colours with components up to 2^64-1. Fed to TTYEventDecoder, TTYCommandDecoder (public API and span-reporting hook) and Utf8Decoder inside a worker process. non-trivial = input has an ESC or a multi-byte lead, at least 2 bytes and at least 2 reads".into()
+        "inputs: raw bytes (<=64, thorough <=1024), ESC/digit/;-heavy noise, concatenations of 1-6 hostile skeletons of every recognised sequence family with parameters from {empty, 0, 1, 00, 2^k+-1, 2^32, 2^64+-1, 20-40 digit runs}, empty parameter lists, truncated (unterminated) sequences, every UTF-8 lead byte with 0-3 continuation bytes incl. overlong/surrogate/>U+10FFFF forms, mutated (bit flip, insert, delete, duplicate, truncate) protocol-printer output and repository test strings, well-formed concatenations; each cut into 1-6 reads (incl. empty reads); plus well-formed SGR colours with components up to 2^64-1. Fed to TTYEventDecoder, TTYCommandDecoder (public API and span-reporting hook) and Utf8Decoder inside a worker process. API schedule (5 of 8 stream cases): a second pass hands the same reads to a new decoder of each of the three kinds, read by read through a generated choice of decode (item by item), decode_into appending to one long-lived output vector reused across all reads, or decode_into on a vector fresh for that read (schedules: all reads long-lived, or 1-6 generated selectors cycled over the reads); after every read one more call on the exhausted read, after the last read two decode_into calls on an empty read; checked: returned count of every decode_into call = growth of the vector in that call, 0 and nothing appended (None for decode) on exhausted input, read fully consumed, collected items = items of the plain decode loop. non-trivial = input has an ESC or a multi-byte lead, at least 2 bytes and at least 2 reads".into()
     }
 
     fn assumptions(&self) -> Vec<String> {
@@ -640,6 +876,8 @@ impl Property for C02 {
             "modifier/button bit masks are not numeric fields: unknown high bits may be ignored".into(),
             "for DA1 every reported attribute must be a transmitted (or clamped) value; absence of an out-of-range attribute is not a violation".into(),
             "a process abort or crash of the worker is attributed to the case in flight".into(),
+            "decode_into ('decode all available items from provided buffer and put them into output vector') has only its usize to report with: it is read as the number of items that call appended (the Read::read_to_end convention, and what the bench prints), so 0 is its 'nothing more is available'; a call that returns Err (Utf8Decoder on invalid input) has no count and is only required not to remove items".into(),
+            "the items a decoder produces for a given sequence of reads do not depend on whether a read is drained with decode or with decode_into, nor on what the output vector already holds".into(),
         ]
     }
 }
